@@ -44,3 +44,33 @@ func VerifLogTwo() {
 	verifrt.Assert(lg >= 0 && lg < 63 && 1<<uint(lg) == v, "exponent")
 	verifrt.Reach("end")
 }
+
+// VerifFormatLinkName (K3): the builder's link-name prefix is the upper-hex bucket
+// index, zero-padded to the number of hex digits of fanout-1, followed by the name —
+// for every permitted fanout, every bucket index and every name.
+func VerifFormatLinkName() {
+	lg := 3 + verifrt.Choose(8)
+	size := 1 << uint(lg)
+	s := &shard{size: size, width: (lg + 3) / 4}
+	idx := verifrt.IntRange(0, size-1)
+	name := verifrt.String(verifrt.Choose(3))
+	got := s.formatLinkName(name, idx)
+	pad := (lg + 3) / 4
+	verifrt.Assert(len(got) == pad+len(name), "format:length")
+	ok := true
+	for i := 0; i < pad; i++ {
+		d := (idx >> uint(4*(pad-1-i))) & 0xf
+		var want byte
+		if d < 10 {
+			want = byte('0' + d)
+		} else {
+			want = byte('A' + d - 10)
+		}
+		ok = verifrt.And(ok, got[i] == want)
+	}
+	for i := 0; i < len(name); i++ {
+		ok = verifrt.And(ok, got[pad+i] == name[i])
+	}
+	verifrt.Assert(ok, "format:upper-hex-prefix+name")
+	verifrt.Reach("end")
+}
